@@ -60,7 +60,9 @@ func init() {
 	}
 	stubs["(*"+sg+"JSMapFunction).CallFunction"] = func(e *Exec, th *Thread, c *CallCtx, a []Val) StubRes {
 		in := a[2].(*PtrV).load().(*StructV)
-		args := e.mapArgsFromInput(in)
+		// the function is the one compiled from this source (a stale cached function shows here)
+		src := a[0].(*NativeV).Data.(*Term)
+		args := append([]*Term{toBlob(src)}, e.mapArgsFromInput(in)...)
 		emits, key, val := mapUFs(len(e.universe()), args)
 		rowT := c.fn.Signature.Results().At(0).Type().Underlying().(*types.Slice).Elem()
 		if !e.branch(emits) {
@@ -80,6 +82,16 @@ func init() {
 	}
 	stubs["(*"+sg+"ViewResult).ProcessParsed"] = func(e *Exec, th *Thread, c *CallCtx, a []Val) StubRes {
 		return ret(nilIface)
+	}
+	// interfaceToInt (reflection): Go ints pass through, anything else is outside the stub
+	stubs[sg+"interfaceToInt"] = func(e *Exec, th *Thread, c *CallCtx, a []Val) StubRes {
+		iv, _ := a[0].(*IfaceV)
+		if iv != nil && iv.T != nil {
+			if b, ok := iv.T.Underlying().(*types.Basic); ok && b.Kind() == types.Int {
+				return ret(TupleV{iv.V, nilIface})
+			}
+		}
+		panic(pathEnd{kind: "unsupported", msg: "interfaceToInt of a non-int value"})
 	}
 	stubs["reflect.DeepEqual"] = func(e *Exec, th *Thread, c *CallCtx, a []Val) StubRes {
 		return ret(tFalse) // PutDDoc's "unchanged" shortcut is not taken (re-creating is always allowed)
@@ -101,7 +113,11 @@ func init() {
 		isJSON := f("IsJSON").(*Term)
 		x := f("Xattrs").(*BytesV)
 		docText := tIte(tAnd(tEq(isJSON, mkBV(64, 1)), tNot(val.Nil)), toBlob(val.S), toBlob(mkStr("{}")))
-		args := []*Term{toBlob(key), docText}
+		src, ok := e.world["mapSrc"].(*Term)
+		if !ok {
+			panic(pathEnd{kind: "unsupported", msg: "view oracle used before verifMapSource"})
+		}
+		args := []*Term{toBlob(src), toBlob(key), docText}
 		for _, u := range e.universe() {
 			h := tAnd(tNot(x.Nil), tNe(x.S, nullBlob), tNe(x.S, mkStr("")), xhas(x.S, u))
 			args = append(args, tIte(h, mkBV(8, 1), mkBV(8, 0)), tIte(h, xget(x.S, u), toBlob(mkStr(""))))
@@ -129,6 +145,10 @@ func init() {
 	stubs[p+"verifAnyJSON"] = func(e *Exec, th *Thread, c *CallCtx, a []Val) StubRes {
 		// canonical JSON text of a parsed value (ViewRow.Key / Value)
 		return ret(bytesOf(e.marshalAny(a[0])))
+	}
+	stubs[p+"verifMapSource"] = func(e *Exec, th *Thread, c *CallCtx, a []Val) StubRes {
+		e.world["mapSrc"] = a[0].(*Term)
+		return ret(nil)
 	}
 	stubs[p+"verifSymOnly"] = func(e *Exec, th *Thread, c *CallCtx, a []Val) StubRes {
 		e.symOnly = true
